@@ -10,7 +10,7 @@ import (
 )
 
 // Profile names a scheduling regime for the generated prefix.
-var Profiles = []string{"near-sync", "random", "timeout-heavy", "partition", "equivocate", "late-commit", "gate", "gate", "laggard"}
+var Profiles = []string{"near-sync", "random", "timeout-heavy", "partition", "equivocate", "late-commit", "gate", "gate", "laggard", "two-faced"}
 
 type RunOpts struct {
 	Profile    string
@@ -34,6 +34,8 @@ func profileWeights(p string) weights {
 		return weights{deliver: 16, alarm: 5, dup: 1, drop: 1, byz: 3, start: 4}
 	case "gate", "laggard":
 		return weights{deliver: 30, alarm: 3, dup: 1, drop: 0, byz: 2, start: 8}
+	case "two-faced":
+		return weights{deliver: 40, alarm: 2, dup: 1, drop: 0, byz: 0, start: 10}
 	default:
 		return weights{deliver: 12, alarm: 4, dup: 2, drop: 2, byz: 4, start: 3}
 	}
@@ -44,8 +46,11 @@ func (w *World) held(profile string, p *Pending, step, healAt int, group map[int
 	if step >= healAt {
 		return false
 	}
+	if p.To >= len(w.Nodes) {
+		return false // personalities hear their side at once
+	}
 	switch profile {
-	case "partition":
+	case "partition", "two-faced":
 		if p.FromByz {
 			return false
 		}
@@ -107,9 +112,11 @@ func (w *World) RunPrefix(t *rapid.T, o RunOpts) {
 	if !o.AllowByz || len(w.Cfg.Byz) == 0 {
 		wt.byz = 0
 	}
-	group := map[int]int{}
+	group := w.Group
 	for i := range w.Nodes {
-		group[i] = rapid.IntRange(0, 1).Draw(t, "group")
+		if _, ok := group[i]; !ok {
+			group[i] = rapid.IntRange(0, 1).Draw(t, "group")
+		}
 	}
 	healAt := o.MaxSteps * rapid.IntRange(0, 4).Draw(t, "healquarters") / 4
 	holdRound := uint64(rapid.IntRange(0, 2).Draw(t, "holdround"))
@@ -130,12 +137,13 @@ func (w *World) RunPrefix(t *rapid.T, o RunOpts) {
 		}
 		var deliverable []int
 		for k, p := range w.Pool {
-			if w.Nodes[p.To].Started && !w.held(o.Profile, p, s, healAt, group, holdRound) {
+			if p.To < len(w.Nodes)+len(w.Personas) && w.At(p.To).Started && !w.held(o.Profile, p, s, healAt, group, holdRound) {
 				deliverable = append(deliverable, k)
 			}
 		}
 		var alarms, unstarted []int
-		for i, n := range w.Nodes {
+		for i := 0; i < len(w.Nodes)+len(w.Personas); i++ {
+			n := w.At(i)
 			if w.alarmEligible(n) {
 				alarms = append(alarms, i)
 			}
@@ -354,11 +362,12 @@ func (w *World) Close(t *rapid.T, maxSteps int, roundBound uint64) CloseResult {
 	// Byzantine traffic still in flight is dropped: the coalition is silent from now on
 	kept := w.Pool[:0]
 	for _, p := range w.Pool {
-		if !p.FromByz {
+		if !p.FromByz && p.To < len(w.Nodes) {
 			kept = append(kept, p)
 		}
 	}
 	w.Pool = kept
+	w.Personas = nil // the coalition is silent from now on
 	for steps := 0; steps < maxSteps; steps++ {
 		if w.AllDecided() {
 			res.AllDecided = true
